@@ -1542,7 +1542,7 @@ def replace_for_loops_with_dict_comp(source: str) -> str:
         transaction += 1
 
         while core.match_template(
-            body_node, (ast.For(body=[object]), ast.If(body=[object], orelse=[]))
+            body_node, (ast.For(body=[object], orelse=[]), ast.If(body=[object], orelse=[]))
         ):
             if isinstance(body_node, ast.If):
                 generators[-1].ifs.append(body_node.test)
@@ -1589,7 +1589,7 @@ def replace_for_loops_with_set_list_comp(source: str) -> str:
     assign_template = ast.Assign(
         value=core.Wildcard("value", object), targets=[ast.Name(id=core.Wildcard("target", str))]
     )
-    for_template = ast.For(body=[object])
+    for_template = ast.For(body=[object], orelse=[])
     if_template = ast.If(body=[object], orelse=[])
 
     set_init_template = ast.Call(func=ast.Name(id="set"), args=[], keywords=[])
